@@ -1,4 +1,4 @@
 SPECIFICATION Spec
-CONSTANTS MaxEntries = 3
+CONSTANTS MaxRR = 3 MaxRA = 2
 INVARIANT PlanOK
 CHECK_DEADLOCK FALSE
